@@ -445,4 +445,11 @@ def rule_e(ctx: Ctx) -> None:
                 'test with single-return helper methods inlined) are cut; no `return True` may remain reachable from entry.')
 
 
-RULES = [rule_a, rule_b, rule_c, rule_d, rule_e]
+def rule_f(ctx: Ctx) -> None:
+    """A wildcard of a restriction is accepted only if the set of namespaces it denotes is included in the set of the base wildcard
+    (C16.c body: is_restriction folded for every pair of constraint kinds)."""
+    from .c16 import rule_c as wildcard_inclusion
+    wildcard_inclusion(ctx, 'C14.f')
+
+
+RULES = [rule_a, rule_b, rule_c, rule_d, rule_e, rule_f]
